@@ -109,6 +109,7 @@ send_packet.stubs['self.send_packet'] = c11._recursive_stub
 send_packet.stubs['self._send_encryption.encrypt_packet'] = encrypt_packet_stub
 send_packet.stubs['self._send'] = wire_stub
 send_packet.model_timeout_ms = 2500     # per-path cross-check witness search budget (sampling only, not a proof step)
+send_packet.confirm_attempts = 24       # 360 paths: cap the counter-model searches when a change refutes many of them
 
 
 # ------------------------------------------------------------------ encryption.py: encrypt_packet (sending side)
@@ -846,3 +847,4 @@ send_newkeys = Spec(
     always=[('newkeys-first', newkeys_order)],
     raises={'UnicodeDecodeError': True, 'AssertionError': lambda c: z3.BoolVal(False)})
 send_newkeys.model_timeout_ms = 2500    # per-path cross-check witness search budget (sampling only, not a proof step)
+send_newkeys.confirm_attempts = 24      # 200 paths: cap the counter-model searches when a change refutes many of them
